@@ -23,6 +23,12 @@ def run(tier, seed):
     add_proof_failures(rep, po)
     conts = build_corpus(expanded=True)
     ok = [c for c in conts if "tokens" in c]
+    # ---------------- T-gen (whole readers): the program translated from every generated reader must be the normal form of its definition's
+    # program (lib/readertie.py; Thm/C01b.lean); here: the differences that concern enum validation (missing / other domain / other width / cast)
+    import readertie
+    po_b = proof_obligations("WowVerif.Thm.C01b")
+    add_proof_failures(rep, po_b)
+    tie_cov = readertie.report(rep, PID, readertie.compute())
     d = Driver()
     # ---------------- T-gen: read expressions and opcode tables
     rcorpus = rust_flags.Corpus()
@@ -153,7 +159,9 @@ def run(tier, seed):
     d.close()
     n_tab = sum(1 for t in optabs if t["rust"] == t["wowm"])
     rep.coverage = {
-        "obligations": po["obligations"] + len(items) + len(optabs), "discharged": po["discharged"] + n_site_ok + n_tab,
+        "obligations": po["obligations"] + po_b["obligations"] + len(items) + len(optabs) + tie_cov["readers_compared"],
+        "discharged": po["discharged"] + po_b["discharged"] + n_site_ok + n_tab + tie_cov["readers_equal_to_normal_form_of_definition"],
+        "reader_tie": tie_cov,
         "checker_cmd": "cd /verif/lean && lake build WowVerif.Thm.C04; python3 /verif/tools/rust_reads.py",
         "trusted_base": TRUSTED_BASE_COMMON + ["tools/rust_reads.py (reads `// name: Type` + `let name = <read>.try_into()?;` and the opcode match arms)", "tools/wowm.py, tools/corpus.py"],
         "theorems": po["theorems"], "enum_read_sites": len(items), "opcode_tables": len(optabs),
